@@ -28,15 +28,18 @@ RULE = ("kvarn::handle_cache in process (component pipex.run, harness/src/c04x.r
         "body size (incl. 4 MiB-1 / 4 MiB as a NUMBER of filler bytes, never materialised on the model side) x streamed / not x status filter "
         "(default, cache-all, only-200), three equal requests + random methods; (B) vary admission: a page with a vary rule whose second variant "
         "is not admissible (no server caching, 400, kvarn-cache-control none, 4 MiB, streamed) or shorter-lived; (C) lifetimes 2 s "
-        "(max-age, kvarn N s, no-store+max-age, max-age among directives) probed at 0.5 s and 3.2 s, every request timed by the harness: a "
+        "(max-age, kvarn N s, no-store+max-age, max-age among directives) probed at 0.5 s and 2.8 s (and max-age=0), a variant pushed 1.4 s into a 2 s "
+        "lifetime must not restart it; every request timed by the harness: a "
         "scenario whose request started or ended more than `slack` late is run again (3 attempts) and then counted as not executed (never "
-        "a violation); clears of the page / host / the page under its redirected URI; (D) If-Modified-Since with the scenario start aligned "
+        "a violation); clears of the page / host / the page under its redirected URI / a page with BOTH its keys occupied (path?query and path) on "
+        "each spelling; (D) If-Modified-Since with the scenario start aligned "
         "to xx.3 s wall clock; (E) kvarn_utils::parse::CacheControl called directly (cc.parse) on bounded-exhaustive and random header "
         "strings, compared with the byte-level model and an independent reference parser in Python. "
         "distinct_nontrivial = distinct scenarios whose model run contains a hit or a 304")
 ASSUMPTIONS = [
     "times are nominal (sum of sleeps) on the model side; the harness measures every request and refuses (retries, then reports not-executed) "
-    "a scenario in which a request started or ended more than 450 ms late; every timing decision has a margin >= 0.7 s beyond that slack",
+    "a scenario in which a request started or ended more than 450 ms late; every timing decision has a margin >= 0.35 s beyond that slack "
+    "(lifetime 2 s: 'fresh' probed at 0.5 s, 'expired' at 2.8 s / 3.0 s / 3.2 s)",
     "moka's eviction under capacity pressure is not modelled (<= 16 keys per run, capacity 1024)",
     "If-Modified-Since dates are generated relative to the aligned scenario start; the `time` crate's HTTP-date parser is abstracted to its result",
     "ServerCachePreference::MaxAge(d) ignores d (observation, outside the property's wording)",
@@ -53,14 +56,14 @@ LEVEL_TEXT = ("Coq theorems over the full cache model (streams, body size as a n
               "histories of requests, clears and waits: every variant the cache ever holds passed the admission test, which is exactly the property's "
               "conjunction (not streamed, declared preference, status filter = the property's list, GET/HEAD, < 4 MiB, not kvarn-cache-control: none) "
               "[stored_variants_admitted, admission_exact, status_filter_exact]; under the handler contract a non-admissible response is recomputed by every "
-              "request of every history [uncacheable_always_recomputed]; a variant found by a lookup was stored at most its OWN lifetime ago, also among "
+              "request — with or without If-Modified-Since — of every history [uncacheable_always_recomputed]; a variant found by a lookup was stored at most its OWN lifetime ago, also among "
               "longer-lived variants of the same page [never_served_past_own_lifetime]; max-age=N alone or among other directives and kvarn-cache-control "
               "N<unit> for every N, unit give N(*unit) seconds [lifetime_*]; a clear of the page (as given or as the default redirect rewrites it) or of "
               "the host makes the next request recompute; misses / non-GET / unsafe requests always recompute; after a response was stored, every history "
               "of other requests, waits and clears of other keys leaves the same request answered without recomputation until the deadline "
-              "[computed_once_history]; 304 iff a usable entry exists and date >= stored second (corner case spelled out). Three defects of the code "
-              "before its repair are proved as witnesses on the faithful old model (vary_push_admission_refuted, variant_lifetime_refuted, "
-              "clear_unprimed_refuted). Tied to the repo worktree by the differential run with counting handlers and timed histories.")
+              "[computed_once_history]; 304 iff a usable entry exists, holds the variant the request selects and date >= stored second (corner case spelled out). Four "
+              "defects of the code before its repair are proved as witnesses on the faithful old model (vary_push_admission_refuted, "
+              "variant_lifetime_refuted, clear_unprimed_refuted, ims_unstored_variant_refuted). Tied to the repo worktree by the differential run with counting handlers and timed histories.")
 LEVEL_NOTE = ("Trusted: Coq kernel; extraction (sample re-checked in-kernel); transcription of handle_cache/CacheControl validated differentially; "
               "real-time behaviour exercised only with 2 s lifetimes; computed_once_history assumes (named hypotheses) that error responses are not "
               "admissible and that the handler's responses for the path agree on query-matters-ness and outlive the deadline. No axioms.")
